@@ -70,6 +70,61 @@ type opT struct {
 	LaterBlock bool   `json:"laterBlock,omitempty"`
 	K          int    `json:"k,omitempty"`
 	Err        bool   `json:"err,omitempty"`
+	// entry options that must not influence the breaker (its statistics are per completed request);
+	// the model and the reference machine ignore them
+	Opts *optsT `json:"entryOptions,omitempty"`
+}
+
+type optsT struct {
+	Batch      *uint32 `json:"batchCount,omitempty"` // nil: option not given (default 1)
+	Inbound    bool    `json:"inbound,omitempty"`
+	ResType    int     `json:"resourceType,omitempty"`
+	Args       int     `json:"args,omitempty"`
+	Attachment bool    `json:"attachment,omitempty"`
+}
+
+// genOpts: two requests in five carry options: batch counts 0, 1, small, large and 2^32-1, inbound
+// traffic, the five resource types, hot-spot arguments, an attachment.
+func genOpts(r *rng.R) *optsT {
+	if !r.Chance(2, 5) {
+		return nil
+	}
+	o := &optsT{}
+	if r.Chance(3, 4) {
+		b := uint32(r.PickI(0, 1, 2, 2, 3, 5, 7, 100, 65536, 4294967295))
+		o.Batch = &b
+	}
+	o.Inbound = r.Chance(1, 3)
+	o.ResType = int(r.PickI(0, 0, 1, 2, 3, 4))
+	o.Args = int(r.PickI(0, 0, 1, 2))
+	o.Attachment = r.Chance(1, 4)
+	return o
+}
+
+func (o *optsT) entryOptions() []sentinel.EntryOption {
+	if o == nil {
+		return nil
+	}
+	var out []sentinel.EntryOption
+	if o.Batch != nil {
+		out = append(out, sentinel.WithBatchCount(*o.Batch))
+	}
+	if o.Inbound {
+		out = append(out, sentinel.WithTrafficType(base.Inbound))
+	}
+	if o.ResType != 0 {
+		out = append(out, sentinel.WithResourceType(base.ResourceType(o.ResType)))
+	}
+	switch o.Args {
+	case 1:
+		out = append(out, sentinel.WithArgs("a"))
+	case 2:
+		out = append(out, sentinel.WithArgs(7, "b"))
+	}
+	if o.Attachment {
+		out = append(out, sentinel.WithAttachment("k", 1))
+	}
+	return out
 }
 
 type caseT struct {
@@ -692,11 +747,12 @@ func (h *harness) genRun(id int) (c caseT, obs []obsT, log []evT, marks []int) {
 			continue
 		}
 		lb := r.Chance(8, 100)
-		c.Ops = append(c.Ops, opT{Kind: "enter", Dt: dt, LaterBlock: lb})
+		eo := genOpts(r)
+		c.Ops = append(c.Ops, opT{Kind: "enter", Dt: dt, LaterBlock: lb, Opts: eo})
 		h.clk.AddMs(dt)
 		now += dt
 		laterBlock = lb
-		e, b := sentinel.Entry(res, sentinel.WithSlotChain(h.chain))
+		e, b := sentinel.Entry(res, append([]sentinel.EntryOption{sentinel.WithSlotChain(h.chain)}, eo.entryOptions()...)...)
 		laterBlock = false
 		ref.enter(now, lb)
 		var o obsT
@@ -941,6 +997,10 @@ func traceLines(c caseT, obs []obsT, log []evT, marks []int) []string {
 		var s string
 		if o.Kind == "enter" {
 			s = fmt.Sprintf("op %d t=%d (+%d) enter laterBlock=%v -> %s", i, now, o.Dt, o.LaterBlock, obs[i].Kind)
+			if o.Opts != nil {
+				ob, _ := json.Marshal(o.Opts)
+				s += " options=" + string(ob)
+			}
 			if obs[i].Kind == "block" {
 				s += " rule " + strconv.Itoa(obs[i].Idx)
 			}
@@ -1082,6 +1142,23 @@ func main() {
 		rep.Count("near_epsilon_ratio_evaluations", st.nearEpsEvals)
 		for i, o := range c.Ops {
 			rep.Count("op_"+o.Kind, 1)
+			if o.Opts != nil {
+				rep.Count("enter_with_entry_options", 1)
+				switch {
+				case o.Opts.Batch == nil:
+				case *o.Opts.Batch == 0:
+					rep.Count("enter_batch_count_0", 1)
+				case *o.Opts.Batch == 1:
+					rep.Count("enter_batch_count_1", 1)
+				case *o.Opts.Batch < 100:
+					rep.Count("enter_batch_count_small", 1)
+				default:
+					rep.Count("enter_batch_count_large", 1)
+				}
+				if o.Opts.Inbound {
+					rep.Count("enter_inbound", 1)
+				}
+			}
 			if o.Kind == "enter" {
 				rep.Count("outcome_"+obs[i].Kind, 1)
 				if o.LaterBlock {
